@@ -427,7 +427,7 @@ func (sc *lcScenario) execute(x *simkit.Exec, salt string, o lcOpts) lcResult {
 		s.SetRate("cleanup-after-sync", []int{0, 100, 400}[x.Tape.Draw("rate:cleanup-after-sync", 3)])
 		s.Go("compactor-cleanup", func() {
 			for {
-				t := time.NewTimer(sc.cfg.defs.cleanupInterval)
+				t := time.NewTimer(sc.cfg.defs.cleanupInterval + 137*time.Nanosecond) // never at the same instant as another actor's timer: which of two due timers fires first is up to the runtime
 				select {
 				case <-ctx.Done():
 					t.Stop()
